@@ -122,7 +122,9 @@ class UMNDirHandler(DirHandler):
             if linkentry.selector in fileentriesdict:
                 if linkentry.gettype() == "X" or linkentry.gettype() == "-":
                     # It's special code to hide something (same as in .cap).
-                    self.fileentries.remove(fileentriesdict[linkentry.selector])
+                    # A second block hiding the same file finds it gone already.
+                    if fileentriesdict[linkentry.selector] in self.fileentries:
+                        self.fileentries.remove(fileentriesdict[linkentry.selector])
                 else:
                     self.mergeentries(fileentriesdict[linkentry.selector], linkentry)
             else:
